@@ -11,9 +11,16 @@ vars == <<shard, l>>
 Init == CoreInit
 
 Same(x, n) == x.k # "I" /\ x = n
+RECURSIVE Hostile(_)
+Hostile(n) ==      \* contains a string / key atom of the hostile table, or is a container
+  CASE n.k = "s" -> TRUE
+    [] n.k = "A" -> TRUE
+    [] n.k = "O" -> TRUE
+    [] OTHER -> FALSE
 
 TYa ==
   /\ IsEvent("Ya") /\ Consume
+  /\ (Hostile(Rec.n) => PrintT(<<"JDV-STAT", "nontrivial", 1>>))
   /\ LET n == Rec.n IN
      /\ Check(Same(Rec.yy, n), "C16", "yaml-write-yaml-read")
      /\ Check(Same(Rec.jj, n), "C16", "json-write-json-read")
